@@ -136,15 +136,13 @@ func setECS(
 	} else {
 		opt.SetUDPSize(dnsmsg.DefaultEDNSUDPSize)
 
-		for _, o := range opt.Option {
-			if edns, ok := o.(*dns.EDNS0_SUBNET); ok {
-				edns.SourceNetmask = prefixLen
-				edns.SourceScope = scope
-				edns.Address = ip
+		// Remove every subnet option that is already there, so that the one
+		// added below is the only one in the message.
+		opt.Option = slices.DeleteFunc(opt.Option, func(o dns.EDNS0) (ok bool) {
+			_, ok = o.(*dns.EDNS0_SUBNET)
 
-				return nil
-			}
-		}
+			return ok
+		})
 	}
 
 	opt.Option = append(opt.Option, &dns.EDNS0_SUBNET{
